@@ -153,9 +153,13 @@ def mk_encryptor(b, public_only=False):
 def mk_bec2(case):
     f = mk_bf3(case)
     blocks = [mk_authblock(b) for b in case["blocks"]]
-    if case.get("key") is None:
-        return Bec2File(f, blocks)
-    return Bec2File(f, blocks, case["key"])
+    # both ways of giving a file its auth blocks: all through the constructor, or the last k through add_auth_block (k from the case)
+    k = (len(blocks) + len(case.get("comps", ())) + len(case.get("comments", ()))) % (len(blocks) + 1) if blocks else 0
+    first, later = blocks[: len(blocks) - k], blocks[len(blocks) - k:]
+    bec = Bec2File(f, first) if case.get("key") is None else Bec2File(f, first, case["key"])
+    for b in later:
+        bec.add_auth_block(b)
+    return bec
 
 
 def writers_for(case):
